@@ -1,6 +1,7 @@
 package cluster
 
 import (
+	"errors"
 	"fmt"
 	"net/rpc"
 	"time"
@@ -109,6 +110,11 @@ func (c *ClusterNode) internalRoute(remoteFn string, args Destinationer, reply a
 				return fmt.Errorf("failed to call %v: %w", remoteFn, finalErr)
 			}
 			if err := verifFault("routed:"+remoteFn+">"+destination, 0); err != nil {
+				if errors.Is(err, ErrTimeout) {
+					// (verification hook) the answer counts as one that came too late
+					retryErr = err
+					continue
+				}
 				return err
 			}
 			return nil
